@@ -1,6 +1,8 @@
 package c13
 
 import (
+	"fmt"
+
 	"verifh/mon"
 )
 
@@ -13,13 +15,14 @@ const (
 	kSet00         // data[i] = 0x00 (skipped where it already is)
 	kSetFF         // data[i] = 0xFF (skipped where it already is)
 	kDER           // DER-aware edits at node i
+	kRelen         // a primitive element re-encoded at another content length (position = (element, length) pair)
 	kTiny          // empty and 1-3 byte inputs (position = index into the fixed list)
 	kCross         // every other artefact of the world, unmodified (type confusion)
 	kSplice        // seeded random splices
 	nKinds
 )
 
-var kindNames = [nKinds]string{"truncate", "xor01", "xor80", "set00", "setff", "der-edit", "tiny", "cross-type", "random-splice"}
+var kindNames = [nKinds]string{"truncate", "xor01", "xor80", "set00", "setff", "der-edit", "der-relength", "tiny", "cross-type", "random-splice"}
 
 // tinyInputs is the fixed list of empty and 1-3 byte inputs.
 var tinyInputs = func() [][]byte {
@@ -49,6 +52,14 @@ func positions(kind int, a *artefact, w *world) int {
 			return 0
 		}
 		return len(a.tree.flat)
+	case kRelen:
+		if a.tree == nil {
+			return 0
+		}
+		if a.relen == nil {
+			a.relen = a.tree.relenPositions(allSubstitutions)
+		}
+		return len(a.relen)
 	case kTiny:
 		return len(tinyInputs) + 1 // + nil
 	case kCross:
@@ -104,6 +115,13 @@ func mutantsAt(kind int, a *artefact, w *world, i int, out []mutant) []mutant {
 			out = append(out, mutant{b: m, what: "der-edit/" + names[j]})
 		}
 		return out
+	case kRelen:
+		p := a.relen[i]
+		m := a.tree.relenMutant(p)
+		if a.wrap != nil {
+			m = a.wrap(m)
+		}
+		return append(out, mutant{b: m, what: fmt.Sprintf("der-relength/%d->%d", len(a.tree.flat[p.node].body), p.l)})
 	case kTiny:
 		if i == len(tinyInputs) {
 			return append(out, mutant{isNil: true, what: "tiny"})
